@@ -3,7 +3,7 @@ package memstore
 
 import (
 	"context"
-	"errors"
+	"database/sql"
 	"sync"
 	"time"
 )
@@ -28,7 +28,8 @@ type Store struct {
 
 func New() *Store { return &Store{M: map[string][]byte{}} }
 
-var ErrNotFound = errors.New("memstore: issuance chain not found")
+// ErrNotFound is what the repository's SQL-backed storages return for an unknown key (row.Scan on no rows).
+var ErrNotFound = sql.ErrNoRows
 
 func (s *Store) FindByKey(ctx context.Context, key []byte) ([]byte, error) {
 	if s.Latency > 0 {
